@@ -61,6 +61,12 @@ pub fn run(ctx: &Ctx) -> Outcome {
         explore_threads(ctx, &rx(ctx.tier, 4, vec![MSS, 1], 0), &tc, &mut out);
         let tc2 = ThreadsCfg { base_depth: ctx.tier.pick(1, 2), with_suffix: false, ..tc };
         explore_threads(ctx, &close(ctx.tier, 0), &tc2, &mut out);
+        // writer || connection while the TX ring grows (the bytes that reach the wire afterwards)
+        let tc3 = ThreadsCfg { base_depth: ctx.tier.pick(1, 2), with_suffix: true, triples: false, ..tc };
+        explore_threads(ctx, &tx_grow(ctx.tier, 0), &tc3, &mut out);
+        // a size probe that was selectively acknowledged, lost, expired, re-cut
+        run_and_report(ctx, &mtu_probe_sacked(ctx.tier, 0, ctx.tier.pick(5, 7)), &mut out);
+        run_and_report(ctx, &mtu_probe_sacked(ctx.tier, 1, ctx.tier.pick(5, 7)), &mut out);
     }
     out.rule = "C01: fault plans enumerated by iterative deviation bounding over generated scenarios; distinct_nontrivial = executions with a distinct (timed) datagram+application trace".into();
     out.assumptions.push("payload is position-coded (period 251 with carry), so a wrong offset, duplicate or swap is visible in the data".into());
